@@ -530,6 +530,17 @@ pub fn on_pause_end() {
     #[cfg(feature = "f_vo")]
     crate::c08::at_pause_end(sh, &live, pre.valid && pre.exact);
 
+    // ---- 4c. address-to-space resolution (C31) -----------------------------------------------
+    if cfg.resolve {
+        crate::c31::at_pause_end(sh, &live);
+    }
+
+    // ---- 4d. Immix lines (C34) -----------------------------------------------------------------
+    if cfg.lines && pre.valid {
+        // (not at the final-state check: objects allocated since the last GC are not marked)
+        crate::c34::at_pause_end(sh, &live);
+    }
+
     // ---- 5. SATB (C12) -------------------------------------------------------------------------
     check_satb(sh, &info, &live);
 
